@@ -237,6 +237,26 @@ def rule_a3(chk: Check) -> None:
                 if not ok:
                     chk.finding("A3", fi.key, f"key-crossed:{f}<-{sorted(keys)}", f"rule field `{f}` is fed from dict keys {sorted(keys)}", n.where())
                 chk.ob("A3", f"rule field {f} <- key {sorted(keys)}", ok)
+                if f == "prefix":
+                    # what is written is what is enforced: the prefix reaches the rule as
+                    # written (plain read of the key, possibly through copies) - any rewriting
+                    # (strip, added slash, normalisation) changes which paths the rule covers
+                    leaves = origins(defs, n, given[f]) if isinstance(given[f], ast.Name) else [(n, given[f])]
+                    okw = bool(leaves)
+                    for _dn, le in leaves:
+                        plain = (
+                            isinstance(le, ast.Subscript) and isinstance(le.slice, ast.Constant) and le.slice.value == "prefix"
+                        ) or (
+                            isinstance(le, ast.Call) and method_call(le) and method_call(le)[1] == "get" and le.args and isinstance(le.args[0], ast.Constant) and le.args[0].value == "prefix"
+                        ) or (isinstance(le, ast.Call) and dotted(le.func) == "str" and len(le.args) == 1 and isinstance(le.args[0], ast.Subscript))
+                        if not plain:
+                            okw = False
+                            chk.finding(
+                                "A3", fi.key, f"prefix-rewritten:{norm(le)[:50] if not isinstance(le, _Sel) else repr(le)}",
+                                f"the rule prefix is not the configured string but `{norm(le) if not isinstance(le, _Sel) else repr(le)}`: a rule written as `/private` that becomes `/private/` no longer covers `/private.gmi` or `/private-notes/`, which the written prefix covers",
+                                n.where(),
+                            )
+                    chk.ob("A3", "rule prefix reaches the rule as written", okw)
     # from_toml
     ft = chk.proj.func("server.config:ServerConfig.from_toml")
     src = None
@@ -533,5 +553,12 @@ def run(chk: Check) -> None:
     rule_a4(chk)
     rule_a5(chk)
     rule_a7(chk)
+    from .c03 import fingerprint_definition
+
+    chk.rule("A8", "the fingerprint compared with a rule's allow-list is a pure function of the presented certificate: sha256 over its DER encoding, no state between calls (= C03.T4)")
+    fingerprint_definition(chk, "A8")
+    from .c19 import wire_fidelity
+
+    wire_fidelity(chk, "A6", "the URL handed to the middleware carries exactly the path the handler acts on: normalised string and ParsedURL fields are built from the same components (= C19.N1-N3)")
     chk.trusted = ["CPython ast parser", "engine CFG / abstract evaluator / path-form catalogue", "pathlib.resolve, posixpath.normpath, urllib.parse.unquote semantics"]
     chk.assumptions = ["fingerprint provenance is decided under C04.M3", "a canonicalisation written with an idiom outside the path-form catalogue would be reported although correct (stated residual risk)"]
